@@ -48,6 +48,7 @@ func runC05(c *core.Ctx) *core.Outcome {
 	cfg.Backend = world.BackMem
 	cfg.FinishAlways = true
 	cfg.OutputSize = 0
+	cfg.Debug = t.Chance(1, 4) // an attached debugger looks, it does not touch
 	if t.Chance(3, 4) {
 		cfg.CacheSize = 0
 	}
